@@ -796,3 +796,37 @@ def c12(run):
     run.assumptions = ['the primitive crates (hash, block cipher, AEAD mode, HKDF, Argon2, curve arithmetic) are correct; only their COMPOSITION is decided here',
                        'refusals by policy (weak hash in an S2K, unsalted S2K on write, usage 255 on write) are not construction questions and are recorded as skipped directions']
     run.notes['trusted_base'] = TRUSTED
+
+
+def keygen_cfg(spec='MCSpec', invs='NeverFails BackSigExactly MetaPlacement LockedAsRequested', before=True):
+    return (f"CONSTANTS\n  BackSigBeforeLock = {'TRUE' if before else 'FALSE'}\n"
+            f"SPECIFICATION {spec}\nINVARIANTS {invs}\nCHECK_DEADLOCK FALSE\n")
+
+
+@prop('C07', 'exploration')
+def c07(run):
+    run.mc('MCKeyGen', keygen_cfg(), name='mc', workers=4)
+    # non-vacuity: back-signing after locking (with the primary's password) fails for subkeys with their own password
+    run.mc('MCKeyGen', keygen_cfg(before=False), name='sens_backsig_after_lock', workers=4, expect_violation='NeverFails')
+    g = run.mc('MCKeyGen', keygen_cfg(spec='GSpec', invs='GenShapes'), name='gen', workers=1, count=False)
+    cases = g.cases
+    for i, c in enumerate(cases):
+        c.setdefault('ci', i)
+    if run.replay and run.replay.get('source_case'):
+        cases = [run.replay['source_case']]
+    body, summary, oks = run.harness('c07', cases, timeout=3400)
+    run.distinct_nontrivial = summary['extra']['nontrivial']
+    run.traces_validated = summary['evaluations']
+    run.rule = ('KeyGen.tla models the requested shape (version, primary type, passwords, user ids, subkeys with type/role/password), the builder validation, '
+                'and SecretKeyParams::generate as ordered steps (GenPrimary, LockPrimary, per subkey GenSub, BackSig, LockSub, then SelfSign) with the rule that a '
+                'signing step needs the unlocked or correctly-passworded secret; TLC checks over all 7020 accepted shapes that generation never fails, that exactly '
+                'the signing subkeys carry a back-signature, that flags/preferences sit on the direct-key signature (v6) or on every user-id certification (v4), '
+                'and that keys end up locked as requested, and shows the mutated order fails. TLC emits every shape (22800, accepted or not) with packet sequence and '
+                'expectations; the harness builds each (rejections included), generates with 2 (thorough 6) seeds per cheap shape and a sample of RSA/DSA shapes, plus '
+                'per-algorithm sweeps of 200-400 (thorough 1000-2000) seeds, and checks: independent deframing gives the predicted packet sequence with exact lengths, '
+                'write_len, verify_bindings on secret and public, signature inventory / flags / preferences / features / back-signatures, binary and armored '
+                're-import equality, lock state, and that every key signs/verifies or encrypts/decrypts with its own password and not with a wrong one')
+    run.add_samples([c for c in cases if c.get('accepted')][:2])
+    run.add_samples(oks[:2])
+    run.assumptions = ['RSA and DSA shapes are sampled (generation cost); all other algorithms are swept']
+    run.notes['trusted_base'] = TRUSTED
